@@ -636,6 +636,7 @@ pub fn run_list(case: &Case) -> Outcome {
     }
     // consumer = main thread: (kind, value, call, ret)
     let mut events: Vec<(u8, Option<(usize, usize)>, u64, u64)> = vec![];
+    let mut pop_if_lims: HashMap<usize, usize> = HashMap::new();
     let mut removed_consumed = 0usize;
     let mut consumed: HashSet<(usize, usize)> = HashSet::new();
     let mut kept_consumed: Vec<((usize, usize), Entry<(usize, usize)>)> = vec![];
@@ -650,8 +651,10 @@ pub fn run_list(case: &Case) -> Outcome {
                 }
             }
             POP_IF => {
-                let lim = (op.1 % 3) as usize;
+                // (lim == 3: the predicate accepts everything)
+                let lim = (op.1 % 4) as usize;
                 let v = q.pop_if(&|v: &(usize, usize)| v.1 % 3 != lim);
+                pop_if_lims.insert(events.len(), lim);
                 events.push((POP_IF, v, c, sched::stamp()));
                 if let Some(v) = v {
                     if v.1 % 3 == lim {
@@ -774,6 +777,23 @@ pub fn run_list(case: &Case) -> Outcome {
                     out.fail("real-time-order", format!("{b:?} was completely pushed before {a:?} began but was popped later"));
                 }
             }
+        }
+    }
+    // pop_if answering "nothing": illegal when an entry was completely pushed before the call
+    // and not consumed before it, unless some entry that may have been at the head is one the
+    // predicate rejects (half-finished pushes of other producers must be waited for, they
+    // must not hide the completed entries behind them)
+    for (ei, (kind, v, c, r)) in events.iter().enumerate() {
+        if *kind != POP_IF || v.is_some() {
+            continue;
+        }
+        let lim = pop_if_lims.get(&ei).copied().unwrap_or(0);
+        let gone = |id: &(usize, usize)| consumed_ret.get(id).map(|t| t < c).unwrap_or(false) || consumed_call.get(id).map(|t| t < c).unwrap_or(false);
+        let present = pushed.iter().any(|(id, _pc, pr, _)| pr < c && !gone(id));
+        let maybe_rejected = pushed.iter().any(|(id, pc, _pr, _)| pc < r && !gone(id) && id.1 % 3 == lim);
+        if present && !maybe_rejected {
+            out.fail("empty-but-not-empty:pop_if", format!("pop_if (rejecting residue {lim}) returned nothing"));
+            break;
         }
     }
     for (kind, v, c, _r) in events.iter() {
@@ -962,7 +982,7 @@ pub fn strategy_list(g: &GenCfg) -> BoxedStrategy<Case> {
     let prod = (0usize..=12).prop_map(|n| vec![Op(PUSH, 0, 0); n]);
     let cop = prop_oneof![
         4 => Just(Op(POP, 0, 0)),
-        2 => (0u32..3).prop_map(|l| Op(POP_IF, l, 0)),
+        2 => (0u32..4).prop_map(|l| Op(POP_IF, l, 0)),
         1 => Just(Op(PEEK, 0, 0)),
         4 => (any::<u16>(), prop_oneof![3 => Just(0u32), 1 => Just(1u32)]).prop_map(|(k, c)| Op(REMOVE, k as u32, c)),
         1 => Just(Op(EMPTY, 0, 0)),
